@@ -82,7 +82,7 @@ class D(Elaboratable):
                             self.M[mi](m)
                         if nested_in == i:
                             self.inner = emit_condition("in_", 2, cfg.get("inner_default", False), cfg.get("inner_nonblocking", False),
-                                                        cfg.get("inner_priority", False), lambda j: [nmeth - 2 + j])
+                                                        cfg.get("inner_priority", False), lambda j: [nmeth - 2 + j] if j < 2 else [])
                     conds.append(c)
                     callees.append(cs)
                 if default:
